@@ -654,6 +654,13 @@ func (c *Conn) IsRegistered() bool {
 	defer c.h.c.mu.Unlock()
 	return len(c.Registered) > 0
 }
+// IsStarted reports whether the connection completed STARTUP.
+func (c *Conn) IsStarted() bool {
+	c.h.c.mu.Lock()
+	defer c.h.c.mu.Unlock()
+	return c.Started
+}
+
 func (c *Conn) Info() (string, string) {
 	c.h.c.mu.Lock()
 	defer c.h.c.mu.Unlock()
